@@ -36,7 +36,7 @@ impl HoleIter {
 }
 #[verifier::external_body]
 pub fn bset_range_peekable(s: &BTreeSet<usize>, a: usize, b: usize) -> (r: HoleIter)
-    requires a <= b        // C08.nopanic: BTreeSet::range panics on an inverted range
+    requires a <= b        // C08.nopanic C20.read: BTreeSet::range panics on an inverted range
     ensures r.wf(s@, a as int, b as int)
 { unimplemented!() }
 
@@ -69,7 +69,7 @@ impl<T: Copy> UpdIter<T> {
 }
 #[verifier::external_body]
 pub fn bmap_range_peekable<T: Copy>(m: &BTreeMap<usize, T>, a: usize, b: usize) -> (r: UpdIter<T>)
-    requires a <= b        // C08.nopanic (F14)
+    requires a <= b        // C08.nopanic C20.read (F14)
     ensures r.wf(m@, a as int, b as int)
 { unimplemented!() }
 
